@@ -334,7 +334,8 @@ impl Repr {
         let num_bits = self.numerator.bit_len();
         let den_bits = self.denominator.bit_len();
 
-        let shift = num_bits as isize - den_bits as isize - 24; // i.e. exponent
+        // two guard bits: the quotient has 26 or 27 bits, plus a sticky bit for the remainder
+        let shift = num_bits as isize - den_bits as isize - 26; // i.e. exponent
         let (num, den) = if shift >= 0 {
             (self.numerator.clone(), (&self.denominator) << shift as usize)
         } else {
@@ -345,25 +346,16 @@ impl Repr {
         if shift >= 128 {
             // max f32 = 2^128 * (1 - 2^-24)
             Inexact(sign * f32::INFINITY, sign)
-        } else if shift < -149 - 25 {
-            // min f32 = 2^-149, quotient has at most 25 bits
+        } else if shift < -149 - 28 {
+            // min f32 = 2^-149, quotient has at most 27 bits
             Inexact(sign * 0f32, -sign)
         } else {
             let (man, r) = num.unsigned_abs().div_rem(&den);
             let man: u32 = man.try_into().unwrap();
 
-            // round to nearest, ties to even
-            if r.is_zero() {
-                Exact(man)
-            } else {
-                let half = (r << 1).cmp(&den);
-                if half == Ordering::Greater || (half == Ordering::Equal && man & 1 > 0) {
-                    Inexact(man + 1, sign)
-                } else {
-                    Inexact(man, -sign)
-                }
-            }
-            .and_then(|man| f32::encode(sign * man as i32, shift as i16))
+            // encode does the (single) rounding: the remainder becomes a sticky bit
+            let man = man << 1 | (!r.is_zero()) as u32;
+            f32::encode(sign * man as i32, (shift - 1) as i16)
         }
     }
 
@@ -379,7 +371,8 @@ impl Repr {
         let num_bits = self.numerator.bit_len();
         let den_bits = self.denominator.bit_len();
 
-        let shift = num_bits as isize - den_bits as isize - 53; // i.e. exponent
+        // two guard bits: the quotient has 55 or 56 bits, plus a sticky bit for the remainder
+        let shift = num_bits as isize - den_bits as isize - 55; // i.e. exponent
         let (num, den) = if shift >= 0 {
             (self.numerator.clone(), (&self.denominator) << shift as usize)
         } else {
@@ -390,25 +383,16 @@ impl Repr {
         if shift >= 1024 {
             // max f64 = 2^1024 × (1 − 2^−53)
             Inexact(sign * f64::INFINITY, sign)
-        } else if shift < -1074 - 53 {
-            // min f64 = 2^-1074, quotient has at most 53 bits
+        } else if shift < -1074 - 57 {
+            // min f64 = 2^-1074, quotient has at most 56 bits
             Inexact(sign * 0f64, -sign)
         } else {
             let (man, r) = num.unsigned_abs().div_rem(&den);
             let man: u64 = man.try_into().unwrap();
 
-            // round to nearest, ties to even
-            if r.is_zero() {
-                Exact(man)
-            } else {
-                let half = (r << 1).cmp(&den);
-                if half == Ordering::Greater || (half == Ordering::Equal && man & 1 > 0) {
-                    Inexact(man + 1, sign)
-                } else {
-                    Inexact(man, -sign)
-                }
-            }
-            .and_then(|man| f64::encode(sign * man as i64, shift as i16))
+            // encode does the (single) rounding: the remainder becomes a sticky bit
+            let man = man << 1 | (!r.is_zero()) as u64;
+            f64::encode(sign * man as i64, (shift - 1) as i16)
         }
     }
 }
